@@ -338,24 +338,38 @@ func ruleJS(c *Ctx) {
 		var typeStore ssa.Value
 		objTypeCleared, objAllocated, typeFromObj := false, false, false
 		var decoded []ssa.Value
+		var objVal ssa.Value // the fresh object installed in s.Object
+		for _, b := range p.Blocks {
+			for _, in := range b.Instrs {
+				if x, ok := in.(*ssa.Store); ok && strings.HasSuffix(accessPath(x.Addr), "->Object") {
+					if _, isAlloc := x.Val.(*ssa.Alloc); isAlloc {
+						objAllocated, objVal = true, x.Val
+					}
+				}
+			}
+		}
+		// isObj: v is the schema's object, named through s.Object or through the local that was installed there
+		isObj := func(v ssa.Value) bool {
+			return v != nil && (v == objVal || strings.HasSuffix(accessPath(v), "->Object)"))
+		}
+		objTypeAddr := func(v ssa.Value) bool {
+			fa, ok := v.(*ssa.FieldAddr)
+			return ok && fieldName(fa.X.Type(), fa.Field) == "Type" && isObj(fa.X)
+		}
 		for _, b := range p.Blocks {
 			for _, in := range b.Instrs {
 				switch x := in.(type) {
 				case *ssa.Store:
 					ap := accessPath(x.Addr)
 					switch {
-					case strings.HasSuffix(ap, "->Type") && !strings.Contains(ap, "->Object"):
-						typeStore = x.Val
-						if strings.Contains(accessPath(x.Val), "->Object)->Type") {
-							typeFromObj = true
-						}
-					case strings.HasSuffix(ap, "->Object)->Type"):
+					case objTypeAddr(x.Addr):
 						if s, ok := constString(x.Val); ok && s == "" && typeFromObj {
 							objTypeCleared = true
 						}
-					case strings.HasSuffix(ap, "->Object"):
-						if _, isAlloc := x.Val.(*ssa.Alloc); isAlloc {
-							objAllocated = true
+					case strings.HasSuffix(ap, "->Type") && !strings.Contains(ap, "->Object"):
+						typeStore = x.Val
+						if ld, ok := x.Val.(*ssa.UnOp); ok && ld.Op == token.MUL && objTypeAddr(ld.X) {
+							typeFromObj = true
 						}
 					}
 				case *ssa.Call:
@@ -377,7 +391,7 @@ func ruleJS(c *Ctx) {
 			okD := len(decoded) == 1 && strings.HasSuffix(accessPath(decoded[0]), "->Union")
 			f.ok, f.why = isS && s == "union" && okD, "for a JSON array Type is not set to \"union\" with the branches decoded into Union"
 		case "object":
-			okD := len(decoded) == 1 && strings.HasSuffix(accessPath(decoded[0]), "->Object)")
+			okD := len(decoded) == 1 && isObj(stripIface(decoded[0]))
 			f.ok = objAllocated && okD && typeFromObj && objTypeCleared
 			f.why = fmt.Sprintf("for a JSON object: fresh object %v, decoded into it %v, Type hoisted from it %v, then cleared there %v", objAllocated, okD, typeFromObj, objTypeCleared)
 		default:
@@ -393,4 +407,12 @@ func ruleJS(c *Ctx) {
 		}
 		c.Check(f.ok, key, P.pos(ufn.Pos()), "handled as the schema grammar requires", f.why)
 	}
+}
+
+// stripIface looks through a conversion to an interface.
+func stripIface(v ssa.Value) ssa.Value {
+	if mi, ok := v.(*ssa.MakeInterface); ok {
+		return mi.X
+	}
+	return v
 }
